@@ -25,7 +25,7 @@ ASSUMPTIONS = [
     "a faulted run is not required to follow the reference trajectory after the fault, only never to return wrong data",
 ]
 TIERS = {
-    "quick": {"worlds": 130, "wall": 170, "cap": 20, "limit": 120.0, "max_points": 44},
+    "quick": {"worlds": 260, "wall": 170, "cap": 20, "limit": 120.0, "max_points": 44},
     "thorough": {"worlds": 2000, "wall": 1700, "cap": 60, "limit": 300.0, "max_points": 160},
 }
 GATES = ("fired.eval.obj", "fired.eval.grad", "fired.eval.cons", "fired.eval.jac", "fired.eval.hess", "fired.lin.factor", "fired.lin.solve", "trials.discarded", "fired.region", "fired.x0", "fired.lin.obs_solve", "worlds.display_rows")
